@@ -4,6 +4,7 @@ import sys
 
 import ltv
 from gen import c07 as G
+from props import c07sm as SM
 
 sys.setrecursionlimit(20000)
 
@@ -117,9 +118,13 @@ def run(rep, tier, seed, replay):
                        "python reference oracle gen/c07.py (ref_encode/ref_decode) for the 'denotes' relation on implementation outputs"]))
     model = ltv.build_model("C07")
     impl = ltv.build_harness("c07", ["c07.cc"])
+    sm_replay = None
     if replay:
         import json
-        cases = [json.load(open(replay))["case"]]
+        rc = json.load(open(replay))["case"]
+        if isinstance(rc, str) and rc.split()[0] in ("R", "W", "T"):
+            sm_replay = rc
+        cases = [] if sm_replay is not None else [rc]
         stats = {"replay": 1}
     else:
         cases, stats = G.gen(seed, tier)
@@ -157,5 +162,20 @@ def run(rep, tier, seed, replay):
                         "non-trivial = distinct case on which at least one reader of the implementation accepts",
                    samples=samples, input_distribution=stats, mismatches=mism,
                    exhaustive=False)
+    # static-map / raw readers (coq/C07/StaticMap.v, PropertiesSM.v, harness/c07sm*.cc)
+    if not replay or sm_replay is not None:
+        part = SM.run_part(rep, tier, seed, sm_replay)
+        c = part.pop("coq")
+        rep.cov["obligations"] += c["obligations"]
+        rep.cov["discharged"] += c["discharged"]
+        rep.cov["theorems"] += c["theorems"]
+        rep.cov["axioms_per_theorem"].update(c["axioms"])
+        rep.cov["checker_cmd"] += " ; " + c["checker_cmd"]
+        rep.cov["trusted_base"] += SM.TRUST
+        for k in ("evaluations", "distinct_nontrivial", "mismatches"):
+            rep.cov[k] += part[k]
+        rep.cov["input_distribution"]["static_map"] = part["input_distribution"]
+        rep.cov["rule"] += " || " + part["rule"]
+        rep.cov["samples"] += part["samples"][:3]
     rep.assumptions += ["buffers shorter than 2^31 bytes", "classic locale on the stream reader",
                         "value trees contain no empty (TYPE_NONE) objects or raw types"]
